@@ -8,7 +8,7 @@ B=$V/ocaml/build/$P
 mkdir -p "$B"
 cd "$B"
 QS=$(grep -E '^-Q' $V/coq/_CoqProject | awk -v d=$V/coq '{print "-Q " d "/" $2 " " $3}' | tr '\n' ' ')
-if [ ! -f driver ] || [ -n "$(find $V/coq/$P $V/coq/common $V/coq/gen $V/ocaml/driver.ml -newer driver -name '*.v*' -o -newer driver -name 'driver.ml' 2>/dev/null | head -1)" ]; then
+if [ ! -f driver ] || [ -n "$(find $V/coq $V/ocaml/driver.ml -newer driver \( -name '*.vo' -o -name 'driver.ml' \) 2>/dev/null | head -1)" ]; then
   timeout 600 coqc $QS -o "$B/Extract.vo" $V/coq/$P/Extract.v > extract.log 2>&1 || { cat extract.log; exit 1; }
   cp ${p}_model.ml model.ml
   rm -f model.mli ${p}_model.mli
